@@ -1286,7 +1286,14 @@ func runE2E(cfg vhlib.Config, sum *vhlib.Summary, r *vhlib.Rng) {
 
 	// every hang is re-run alone with a generous limit before it is believed
 	for i := range results {
-		if results[i].Status != "hang" || results[i].Mut.Generous {
+		// a dead worker without a Go panic / fatal-error line (e.g. "pthread_create failed" + SIGABRT when the
+		// address-space limit is hit under load) is re-run alone as well and judged by that run
+		unclear := results[i].Status == "crash" && !strings.Contains(results[i].Msg, "panic:") && !strings.Contains(results[i].Msg, "fatal error:") &&
+			!strings.Contains(results[i].Msg, "out of memory") && !strings.Contains(results[i].Msg, "cannot allocate")
+		if unclear {
+			sum.Count("e2e/unclear_crash_rerun_alone")
+		}
+		if !unclear && (results[i].Status != "hang" || results[i].Mut.Generous) {
 			continue
 		}
 		sum.Count("e2e/timeout_rerun_alone")
